@@ -288,7 +288,7 @@ def gen_type(rng: core.Rng, declared: str) -> Optional[str]:
 
 def gen_alist(rng: core.Rng, objs: List[dict], cname: str, depth: int, wild: bool, sel: bool = False) -> list:
     ft = field_table()
-    fs = list(fields_of(cname))
+    fs = [f for f in fields_of(cname) if f != "codes" or rng.chance(0.25)]     # builtin collection (finding C11-h): rarely
     rng.shuffle(fs)
     k = rng.choice([0, 1, 1, 1, 2, 2, 3]) if depth > 1 else rng.choice([1, 1, 2])
     out = []
@@ -416,10 +416,11 @@ def case_term(d: dict, keys: List[int]) -> str:
         trows.append(f"({i + 1}, {CID[o['cls']]}%nat)")
     subs = "; ".join(f"({CID[c]}, {CID[e]})%nat" for c in CLASSES for e in CLASSES if issub(c, e))
     flds = "; ".join(f"({CID[c]}, {ATTR[a]}, {'true' if it else 'false'}, {CID[e]})%nat" for (c, a), (it, e) in sorted(ft.items()))
-    return ("{| c_world := [%s]; c_types := [%s]; c_sub := [%s]; c_fields := [%s]; c_opt := [%s]%%nat; c_objcls := [%s]%%nat; c_rootsel := %s; c_T := %d%%nat; "
+    return ("{| c_world := [%s]; c_types := [%s]; c_sub := [%s]; c_fields := [%s]; c_opt := [%s]%%nat; c_bcoll := [%s]%%nat; c_objcls := [%s]%%nat; c_rootsel := %s; c_T := %d%%nat; "
             "c_pat := %s; c_dom := %s |}") % (
         "; ".join(wrows), "; ".join(trows), subs, flds,
         "; ".join(f"({CID[c]}, {ATTR[a]})" for (c, a), o in sorted(_OPTIONAL.items()) if o),
+        "; ".join(f"({CID[c]}, {ATTR[a]})" for (c, a) in sorted(ft) if a == "codes"),
         "; ".join(str(CID[c]) for c in OBJ_CLASSES),
         "true" if d.get("rootsel") else "false", CID[d["T"]],
         alist_term(d["pat"]), core.zlist(i + 1 for i in d["dom"]))
